@@ -493,6 +493,16 @@ def oracle_c06(rr: Any, spec: Dict[str, Any]) -> "tuple[List[Violation], int]":
     # a message may carry the task id of another one (redelivery / re-used id): the id it was sent with
     tid_of = {f"m{i}": m["task_id"] for i, m in enumerate(spec.get("msgs", [])) if m.get("task_id")}
     tid_of = {d: tid_of.get(t, t) for d, t in tok_of.items()}
+    # names of the labels every message carries: its own and the harness token
+    names_of: Dict[str, List[str]] = {}
+    for i, m in enumerate(spec.get("msgs", [])):
+        if m.get("dup_of") is not None or m.get("task_id"):
+            continue
+        # (the harness sends through AsyncKicker(name, broker, labels): labels declared on the task are not merged in)
+        nm = set(map(str, m.get("labels", {}))) | {"own"}
+        if m.get("timeout") is not None or m.get("timeout_raw") is not None:
+            nm.add("timeout")
+        names_of[m.get("tok") or f"m{i}"] = sorted(nm)
 
     def chk(echo: Any, d: Any, where: str, uncached: bool = False) -> None:
         nonlocal checked
@@ -500,9 +510,12 @@ def oracle_c06(rr: Any, spec: Dict[str, Any]) -> "tuple[List[Violation], int]":
             return
         checked += 1
         want = tok_of.get(d)
-        if list(echo) != [tid_of.get(d, want), want, want]:
+        if list(echo)[:3] != [tid_of.get(d, want), want, want]:
             kind = "context-crosstalk-uncached-dependency" if uncached else "context-crosstalk"
             v.append(Violation(kind, f"{where} of delivery {d} ({want}) observed Context of {echo}"))
+        elif len(echo) > 3 and want in names_of and sorted(echo[3]) != names_of[want]:
+            v.append(Violation("labels-of-another-message", f"{where} of delivery {d} ({want}) observed labels named {echo[3]}, "
+                               f"its message carries {names_of[want]}"))
 
     deps = spec.get("deps", {})
     for e in tr:
@@ -522,6 +535,17 @@ def oracle_c06(rr: Any, spec: Dict[str, Any]) -> "tuple[List[Violation], int]":
             want = tid_of.get(e["m"])
             if e["task_id"] != want:
                 v.append(Violation("progress-crosstalk", f"progress reported by delivery {e['m']} ({want}) stored under {e['task_id']}"))
+        elif e["k"] == "set_pickled":
+            # what a pickling backend keeps under this id: the error / value of this very execution
+            want = tok_of.get(e["m"])
+            checked += 1
+            # (taskiq's own TaskRejectedError rebuilds its message from a template: it never carries arguments)
+            if e.get("err_args") is not None and e.get("err") != "TaskRejectedError" \
+                    and (not e["err_args"] or e["err_args"][0] != want):
+                v.append(Violation("result-crosstalk", f"pickled result stored under {e['task_id']} carries the error "
+                                   f"{e.get('err')}{tuple(e['err_args'])} of another execution (this one is {want})"))
+            if isinstance(e.get("rv"), dict) and e["rv"].get("tok") not in (None, want):
+                v.append(Violation("result-crosstalk", f"pickled result stored under {e['task_id']} was produced by {e['rv'].get('tok')}"))
         elif e["k"] == "set_enter":
             want = tok_of.get(e["m"])
             checked += 1
@@ -532,6 +556,11 @@ def oracle_c06(rr: Any, spec: Dict[str, Any]) -> "tuple[List[Violation], int]":
                 v.append(Violation("result-crosstalk", f"result stored under {e['task_id']} was produced by {rv.get('tok')}"))
             if isinstance(e.get("labels"), dict) and e["labels"].get("own") != want:
                 v.append(Violation("result-labels-crosstalk", f"result for {want} carries labels of {e['labels'].get('own')}"))
+            elif isinstance(e.get("labels"), dict) and want in names_of:
+                got = sorted(str(k) for k in e["labels"] if k != "X-Taskiq-requeue")
+                if got != names_of[want]:
+                    v.append(Violation("result-labels-crosstalk", f"result for {want} carries labels named {got}, its message "
+                                       f"carries {names_of[want]}"))
     return v, checked
 
 
